@@ -171,11 +171,18 @@ def replay(mod, path):
         mod.rejudge(case, recs, res, variant, v)
     else:
         generic_rejudge(prop, case, recs, res, variant)
+    if not res.violations and res.counters.get('evaluations', 0) == 0 and hasattr(mod, 'rejudge'):
+        # the module's own re-judge found nothing to look at in this program (e.g. a cross-case comparison such as the
+        # C05 mirror check, or observations without state dumps): fall back to the generic multiset interpreter
+        generic_rejudge(prop, case, recs, res, variant)
     if res.violations:
         print('VIOLATION property=%s replay=%s' % (prop, path))
         for x in res.violations[:5]:
             print('  signature=%s' % x['signature'])
             print('  %s' % x['message'])
         return 1
+    if res.counters.get('evaluations', 0) == 0:
+        print('INCONCLUSIVE: the case was re-executed but contains nothing this replay can re-judge on its own; re-run ./check %s' % prop)
+        return 2
     print('%s: the recorded violation does not reproduce on the current tree (%d observations re-judged)' % (prop, res.counters.get('evaluations', 0)))
     return 0
